@@ -315,15 +315,13 @@ pub fn configs(args: &Args) -> Vec<Cfg> {
     let thorough = args.thorough();
     let timeout_ms = 20_000;
     let mut v = vec![];
-    let nmax_extra = if thorough { 2 } else { 1 };
+    let nmax_extra = if thorough { 3 } else { 2 };
+    let full = true; // every combination also in the quick tier (the whole table costs a few seconds)
     // ---- 1-D decision table
     for strat in [Strat::Linear, Strat::SplineNak, Strat::SplinePeriodic] {
         let min = strat.min();
         for len in 0..=min + nmax_extra {
             for trailing in [vec![], vec![2]] {
-                if !thorough && !trailing.is_empty() && len != min && len != min + 1 {
-                    continue;
-                }
                 let mut shape = vec![len];
                 shape.extend(&trailing);
                 for dynamic in [false, true] {
@@ -332,9 +330,6 @@ pub fn configs(args: &Args) -> Vec<Cfg> {
                         xl.push(Some(len - 1));
                     }
                     for xlen in xl {
-                        if !thorough && dynamic && xlen != Some(len) && xlen.is_some() {
-                            continue;
-                        }
                         v.push(Cfg { strat: strat.clone(), shape: shape.clone(), dynamic, xlen, ylen: None, timeout_ms });
                     }
                 }
@@ -373,7 +368,7 @@ pub fn configs(args: &Args) -> Vec<Cfg> {
         }
     }
     // ---- 2-D decision table, x and y independent
-    let lens = if thorough { vec![0, 1, 2, 3] } else { vec![1, 2, 3] };
+    let lens = if thorough { vec![0, 1, 2, 3, 4] } else { vec![0, 1, 2, 3] };
     for &nx in &lens {
         for &ny in &lens {
             for trailing in [vec![], vec![2]] {
@@ -383,21 +378,15 @@ pub fn configs(args: &Args) -> Vec<Cfg> {
                 let mut shape = vec![nx, ny];
                 shape.extend(&trailing);
                 for dynamic in [false, true] {
-                    if dynamic && !thorough && (nx + ny) % 2 == 0 {
-                        continue;
-                    }
                     let opts = |n: usize| -> Vec<Option<usize>> {
                         let mut o = vec![None, Some(n), Some(n + 1)];
-                        if n >= 1 && thorough {
+                        if n >= 1 && full {
                             o.push(Some(n - 1));
                         }
                         o
                     };
                     for xlen in opts(nx) {
                         for ylen in opts(ny) {
-                            if !thorough && xlen != Some(nx) && ylen != Some(ny) && !(xlen.is_none() && ylen.is_none()) {
-                                continue;
-                            }
                             v.push(Cfg { strat: Strat::Bilinear, shape: shape.clone(), dynamic, xlen, ylen, timeout_ms });
                         }
                     }
@@ -434,8 +423,8 @@ pub fn run(args: &Args) -> Report {
     for f in ["interp1d::Interp1DBuilder::new", "interp1d::Interp1DBuilder::x", "interp1d::Interp1DBuilder::strategy", "interp1d::Interp1DBuilder::build", "interp2d::Interp2DBuilder::new", "interp2d::Interp2DBuilder::x", "interp2d::Interp2DBuilder::y", "interp2d::Interp2DBuilder::strategy", "interp2d::Interp2DBuilder::build", "vector_extensions::VectorExtensions::monotonic_prop", "interp1d::strategies::cubic_spline::CubicSpline::calc_coefficients", "interp1d::strategies::cubic_spline::CubicSpline::solve_for_k"] {
         rep.functions.insert(f.to_string());
     }
-    rep.bounds.push(format!("1-D: Linear (min 2), CubicSpline NotAKnot / Periodic (min 3), data length 0..min+{}, static and IxDyn data incl. dynamic rank 0, trailing () and (2); axis default / length n-1, n, n+1; per-lane boundary arrays with correct shape, wrong leading axis, wrong trailing axis, wrong (dynamic) rank, combined with axis-length violations", if args.thorough() { 2 } else { 1 }));
-    rep.bounds.push(format!("2-D: Bilinear, grids {0}x{0}, x and y axes independently default / n / n+1{1}, static and IxDyn data incl. dynamic rank 0 and 1", if args.thorough() { "0..3" } else { "1..3" }, if args.thorough() { " / n-1" } else { "" }));
+    rep.bounds.push(format!("1-D: Linear (min 2), CubicSpline NotAKnot / Periodic (min 3), data length 0..min+{}, static and IxDyn data incl. dynamic rank 0, trailing () and (2); axis default / length n-1, n, n+1; per-lane boundary arrays with correct shape, wrong leading axis, wrong trailing axis, wrong (dynamic) rank, combined with axis-length violations", if args.thorough() { 3 } else { 2 }));
+    rep.bounds.push(format!("2-D: Bilinear, grids {0}x{0}, x and y axes independently default / n / n+1{1}, static and IxDyn data incl. dynamic rank 0 and 1", if args.thorough() { "0..4" } else { "0..3" }, " / n-1"));
     rep.bounds.push("every axis element, data element and periodic end row an unconstrained IEEE double (NaN, ties, swaps at any position are models)".into());
     rep.outside.push("axis lengths above 5; boundary arrays with non-Natural entries (their values do not enter validation)".into());
     rep.assumptions.insert("mode O: comparisons bit-precise IEEE, arithmetic uninterpreted".into());
